@@ -35,14 +35,24 @@ def allPairwise (eq : GVal → GVal → Bool) : List GVal → List GVal → Bool
   | a :: as, b :: bs => eq a b && allPairwise eq as bs
   | _, _ => false
 
-/-- first entry of `rhs` whose key matches decides (gen/map.go equalsUnhashable). -/
-def kvLookupEq (eqk eqv : GVal → GVal → Bool) (lk lv : GVal) : List (GVal × GVal) → Bool
-  | [] => false
-  | (rk, rv) :: rest => if eqk lk rk then eqv lv rv else kvLookupEq eqk eqv lk lv rest
+/-- every element of `as` is related to some element of `bs` (the generated O(n²) loop;
+for Go-map-backed sets it is the membership loop). -/
+def subR {α : Type} (r : α → α → Bool) (as bs : List α) : Bool := as.all fun a => bs.any (r a)
 
-def hashLookup (k : GVal) : List (GVal × GVal) → Option GVal
+/-- value of the first entry whose key is related to `k` (`rhs[k]` for Go maps, the inner
+loop of `equalsUnhashable` for key/value slices). -/
+def lookupR {K V : Type} (r : K → K → Bool) (k : K) : List (K × V) → Option V
   | [] => none
-  | (k', v) :: rest => if keyEq k' k then some v else hashLookup k rest
+  | (k', v) :: rest => if r k k' then some v else lookupR r k rest
+
+/-- every entry of `a` finds its key in `b` with an equal value. -/
+def mapSub {K V : Type} (r : K → K → Bool) (eqv : V → V → Bool) (a b : List (K × V)) : Bool :=
+  a.all fun kv => match lookupR r kv.1 b with
+    | some rv => eqv kv.2 rv
+    | none => false
+
+/-- Go's map lookup compares the stored key with the probe: `keyEq stored probe`. -/
+def keyEqFlip (probe stored : GVal) : Bool := keyEq stored probe
 
 /-- per-field rule of the struct `Equals` template: `equals` for required fields, `equalsPtr` otherwise. -/
 def fieldEq (eq : Ty → GVal → GVal → Bool) (f : Field) (a b : GVal) : Bool :=
@@ -65,24 +75,18 @@ def equalsG (env : Env) : Nat → Ty → GVal → GVal → Bool
     | .list e => allPairwise (equalsG env fuel e) (listOf a) (listOf b)
     | .set e =>
       if e.isPrim then
-        (listOf a).length == (listOf b).length &&
-          (listOf b).all fun x => (listOf a).any (keyEq · x)
+        (listOf a).length == (listOf b).length && subR keyEqFlip (listOf b) (listOf a)
       else
-        (listOf a).length == (listOf b).length &&
-          (listOf a).all fun x => (listOf b).any (equalsG env fuel e x)
+        (listOf a).length == (listOf b).length && subR (equalsG env fuel e) (listOf a) (listOf b)
     | .sset e =>
-      (listOf a).length == (listOf b).length &&
-        (listOf a).all fun x => (listOf b).any (equalsG env fuel e x)
+      (listOf a).length == (listOf b).length && subR (equalsG env fuel e) (listOf a) (listOf b)
     | .map k v =>
       if k.isPrim then
         (pairsOf a).length == (pairsOf b).length &&
-          (pairsOf a).all fun kv =>
-            match hashLookup kv.1 (pairsOf b) with
-            | some rv => equalsG env fuel v kv.2 rv
-            | none => false
+          mapSub keyEqFlip (equalsG env fuel v) (pairsOf a) (pairsOf b)
       else
         (pairsOf a).length == (pairsOf b).length &&
-          (pairsOf a).all fun kv => kvLookupEq (equalsG env fuel k) (equalsG env fuel v) kv.1 kv.2 (pairsOf b)
+          mapSub (equalsG env fuel k) (equalsG env fuel v) (pairsOf a) (pairsOf b)
     | .struct n =>
       match a, b with
       | .nil, .nil => true
